@@ -62,10 +62,27 @@ def termination_props(unitcfg, module):
     tp = unitcfg.get('termination_props', {})
     return list(tp.get(module, tp.get('default', [])))
 
+def ghost_lines(text):
+    """set of line numbers that lie inside a spliced ghost span"""
+    out = set()
+    i = 0
+    G0, G1 = extract.G_OPEN, extract.G_CLOSE
+    while True:
+        a = text.find(G0, i)
+        if a < 0: break
+        b = text.find(G1, a)
+        if b < 0: break
+        la = text.count('\n', 0, a) + 1
+        lb = text.count('\n', 0, b) + 1
+        out.update(range(la, lb + 1))
+        i = b + len(G1)
+    return out
+
 def map_failures(res, gen, unitcfg):
     """-> (failures, undecided) ; failure = dict(props, obligation, fn, kind, message, clause, src)"""
     fails, undec = [], []
     midx = module_index(gen.text)
+    if not hasattr(gen, '_ghost'): gen._ghost = ghost_lines(gen.text)
     for d in res['diags']:
         status, kind = vrun.classify(d['message'])
         if status == 'unknown':
@@ -84,8 +101,14 @@ def map_failures(res, gen, unitcfg):
         mod = module_at_line(midx, line)
         if status == 'undecided':
             undec.append({'message': d['message'], 'fn': fn.path if fn else None, 'module': mod, 'kind': kind, 'line': line,
-                          'rendered': d['rendered']})
+                          'rendered': d['rendered'], 'labels': list(fn.labels) if fn else []})
             continue
+        if fn is not None and fn.lost_hints and not [l for l in labels if l.startswith('CANARY:')]:
+            undec.append({'message': d['message'] + ' (a proof hint of this function could not be placed: %s)' % fn.lost_hints[0], 'fn': fn.path,
+                          'module': fn.module, 'kind': 'lost-hint', 'line': line, 'rendered': d['rendered'], 'labels': list(fn.labels)})
+            continue
+        if kind == 'precondition' and not labels and line in gen._ghost:
+            kind = 'assertion'     # the precondition of a lemma called from a spliced proof hint: a proof step, not a panic
         canary = [l for l in labels if l.startswith('CANARY:')]
         labels = [l for l in labels if not l.startswith('CANARY:')]
         f = {'kind': kind, 'message': d['message'], 'fn': fn.path if fn else None, 'module': fn.module if fn else mod,
@@ -244,6 +267,20 @@ def run_unit(prop, unit, pcfg, cache, usize=8, seed=None, want_canary=True):
         passed = sorted(exp_in - failed_canaries)
         if passed:
             raise Undecided('vacuity guard: assert(false) was PROVED at %s -- a precondition or axiom set is contradictory' % passed)
+    for f in gen.fns:
+        if f.lost and f.module in mods:
+            undec.append({'message': 'contract anchors lost, function left unverified (external_body): %s' % f.lost, 'fn': f.path, 'module': f.module,
+                          'kind': 'lost-anchor', 'line': f.line_start, 'rendered': '', 'labels': list(f.labels)})
+        for lab in f.lost_sites:
+            undec.append({'message': 'site obligation %s could not be placed' % lab, 'fn': f.path, 'module': f.module, 'kind': 'lost-anchor',
+                          'line': f.line_start, 'rendered': '', 'labels': [lab]})
+    def relevant(x):
+        if x.get('fn') is None: return x.get('module') in mods or x.get('module') is None
+        labs = x.get('labels') or []
+        if any(prop in gen.clauses[l]['own'] or prop in gen.clauses[l]['dep'] for l in labs if l in gen.clauses): return True
+        m = x.get('module')
+        return prop in safety_props(unitcfg, m) or prop in termination_props(unitcfg, m)
+    undec = [x for x in undec if relevant(x)]
     u.unit, u.gen, u.unitcfg, u.mods, u.res, u.fails, u.undec = unit, gen, unitcfg, mods, res, fails, undec
     u.canaries, u.canaries_failed = exp_in, exp_in & failed_canaries
     u.obs = obligations_for(prop, gen, unitcfg, mods)
@@ -290,7 +327,7 @@ def main():
         for f in u.fails:
             if not any(g['obligation'] == f['obligation'] and g['fn'] == f['fn'] and g['line'] == f['line'] and g.get('unit') == u.unit for g in fails):
                 f['unit'] = u.unit; f['cmd'] = u.res['cmd']; fails.append(f)
-        undec += [x for x in u.undec if x['module'] in u.mods or x['module'] is None]
+        undec += u.undec
     for f in extra.get('fails', []):
         fails.append(f)
     relevant = [f for f in fails if prop in f['props']]
